@@ -21,6 +21,11 @@ ASSUME = [
 ]
 
 
+def RT(text):
+    """the same text as a string object built at run time (read from a file, joined, sliced): equal to the literal, not identical"""
+    return "".join(list(text))
+
+
 def run(tier, seed):
     warnings.simplefilter("ignore")
     v = common.Verdict("C11", tier, seed)
@@ -66,8 +71,8 @@ def run(tier, seed):
         try:
             # the image functions are called on the caller's array itself (no copy), twice, with the guards of lattice_lib.twice
             keep = img.copy()
-            out, m1 = L.twice(funcs[f], img, o[0], o[1], o[2], o[3], "forward")
-            back, m2 = L.twice(funcs[f], np.array(out), o[0], o[1], o[2], o[3], "inverse")
+            out, m1 = L.twice(funcs[f], img, o[0], o[1], o[2], o[3], RT("forward"))
+            back, m2 = L.twice(funcs[f], np.array(out), o[0], o[1], o[2], o[3], RT("inverse"))
             for m_ in (m1, m2):
                 if m_:
                     v.violation(m_ + " (o=%s, %dx%d)" % (list(o), W, H), desc)
@@ -184,12 +189,12 @@ def run(tier, seed):
         img = cache[(W, H)]
         desc = {"function": "trans_orientation", "o": o, "W": W, "H": H}
         v.case(("big", tuple(o), W, H))
-        out = np.asarray(detector.trans_orientation(img, o[0], o[1], o[2], o[3], "forward"))
-        back = np.asarray(detector.trans_orientation(out, o[0], o[1], o[2], o[3], "inverse"))
+        out = np.asarray(detector.trans_orientation(img, o[0], o[1], o[2], o[3], RT("forward")))
+        back = np.asarray(detector.trans_orientation(out, o[0], o[1], o[2], o[3], RT("inverse")))
         if back.shape != img.shape or not np.array_equal(back, img):
             v.violation("trans_orientation inverse does not undo forward for o=%s shape %dx%d" % (o, W, H), desc)
-        out2 = np.asarray(detector.image_flipping(img, o[0], o[1], o[2], o[3], "forward"))
-        back2 = np.asarray(detector.image_flipping(out2, o[0], o[1], o[2], o[3], "inverse"))
+        out2 = np.asarray(detector.image_flipping(img, o[0], o[1], o[2], o[3], RT("forward")))
+        back2 = np.asarray(detector.image_flipping(out2, o[0], o[1], o[2], o[3], RT("inverse")))
         if back2.shape != img.shape or not np.array_equal(back2, img):
             v.violation("image_flipping inverse does not undo forward for o=%s shape %dx%d" % (o, W, H), desc)
         for (p, q) in x["map"]:
